@@ -299,4 +299,12 @@ def vectors():
          ("routes", dict(testnet=False), {"_battery": ["letter advice cage absurd amount doctor acoustic avoid letter advice cage above", "TREZOR"]}),
          ("seed_routes", dict(lo=0, hi=64, upper=False, testnet=True),
           {"n": 64, "seed": hashlib.pbkdf2_hmac("sha512", b"abandon abandon", b"mnemonicTREZOR", 2048).hex()})]
+    # boundary vectors (not from /repo/tests): checksum-valid sentences written with irregular white space, text that
+    # happens to be well-formed hex, empty strings -- the seed is defined on the text exactly as given
+    base = "legal winner thank year wave sausage worth useful legal winner thank yellow"
+    for m in (base.replace(" thank yellow", "  thank yellow"), base + "\n", " " + base, base.replace(" ", "\t"), base.replace(" ", "\u3000"),
+              "deadbeef", "cafe", "beef beef beef beef beef beef beef beef beef beef fade feed", "00", ""):
+        for p in ("", "TREZOR", "cafe"):
+            v.append(("seed", {}, {"_battery": [m, p]}))
+            v.append(("routes", dict(testnet=(len(m) % 2 == 0)), {"_battery": [m, p]}))
     return v
